@@ -339,7 +339,19 @@ func (jenny RawTypes) generateFromJSONMethod(context languages.Context, object a
 }
 
 func (jenny RawTypes) fromJSONForType(context languages.Context, typeDef ast.Type, inputVar string, hint string) fromJSONCode {
+	return jenny.fromJSONForTypeRec(context, typeDef, inputVar, hint, map[ast.RefType]struct{}{})
+}
+
+// unfolding holds the references being unfolded: an alias can be recursive
+// through arrays or maps (`A: [...A]`).
+func (jenny RawTypes) fromJSONForTypeRec(context languages.Context, typeDef ast.Type, inputVar string, hint string, unfolding map[ast.RefType]struct{}) fromJSONCode {
 	if typeDef.IsRef() { //nolint:gocritic
+		if _, recursive := unfolding[typeDef.AsRef()]; recursive {
+			return fromJSONCode{DecodingCall: inputVar}
+		}
+		unfolding[typeDef.AsRef()] = struct{}{}
+		defer delete(unfolding, typeDef.AsRef())
+
 		resolvedType := context.ResolveRefs(typeDef)
 		if resolvedType.IsStruct() {
 			formattedRef := jenny.typeFormatter.formatFullyQualifiedRef(typeDef.AsRef(), false)
@@ -354,14 +366,14 @@ func (jenny RawTypes) fromJSONForType(context languages.Context, typeDef ast.Typ
 			return fromJSONCode{DecodingCall: inputVar}
 		}
 
-		return jenny.fromJSONForType(context, resolvedType, inputVar, hint+"_ref")
+		return jenny.fromJSONForTypeRec(context, resolvedType, inputVar, hint+"_ref", unfolding)
 	} else if typeDef.IsArray() {
 		if typeDef.Array.IsArrayOf(ast.KindScalar) {
 			return fromJSONCode{DecodingCall: inputVar}
 		}
 
 		valueType := typeDef.Array.ValueType
-		valueTypeFromJSON := jenny.fromJSONForType(context, valueType, "item", hint+"_array")
+		valueTypeFromJSON := jenny.fromJSONForTypeRec(context, valueType, "item", hint+"_array", unfolding)
 
 		return fromJSONCode{
 			Setup:        valueTypeFromJSON.Setup,
@@ -373,7 +385,7 @@ func (jenny RawTypes) fromJSONForType(context languages.Context, typeDef ast.Typ
 		}
 
 		valueType := typeDef.Map.ValueType
-		valueTypeFromJSON := jenny.fromJSONForType(context, valueType, inputVar+"[key]", hint+"_map")
+		valueTypeFromJSON := jenny.fromJSONForTypeRec(context, valueType, inputVar+"[key]", hint+"_map", unfolding)
 
 		return fromJSONCode{
 			Setup:        valueTypeFromJSON.Setup,
